@@ -205,6 +205,7 @@ theorem Inv.tinv {c : Cfg α} {steps : List (Step α)} {tr : List (List IGrid)} 
     rw [← this]
     exact h.budget
 
+omit [LinearOrder α] in
 theorem flatten_snoc (tr : List (List IGrid)) (b : List IGrid) : (tr ++ [b]).flatten = tr.flatten ++ b := by
   simp
 
@@ -214,10 +215,12 @@ structure Proposal (c : Cfg α) (igrids : List IGrid) : Prop where
   nodup : igrids.Nodup
   card : igrids.length ≤ 3 ^ c.mn.length
 
+omit [LinearOrder α] in
 theorem proposal_localSearch (c : Cfg α) (src : IGrid) (r : Int) (hr : r ≠ 0) :
     Proposal c (localSearch c.mn c.mx src r) :=
   ⟨localSearch_inGrid _ _ _ _, localSearch_nodup _ _ _ _ hr, localSearch_length_le _ _ _ _⟩
 
+omit [LinearOrder α] in
 theorem freshOf_sublist (igrids : List IGrid) (steps : List (Step α)) : (freshOf igrids steps).Sublist igrids :=
   List.filter_sublist
 
@@ -322,8 +325,10 @@ theorem inv_length_le_gridCard {c : Cfg α} {steps : List (Step α)} {tr : List 
     exact h.grid s hs)
   rwa [List.length_map] at this
 
+omit [LinearOrder α] in
 theorem addBatch_nil (tr : List (List IGrid)) : addBatch tr [] = tr := by simp [addBatch]
 
+omit [LinearOrder α] in
 theorem addBatch_ne_nil (tr : List (List IGrid)) {b : List IGrid} (h : b ≠ []) : addBatch tr b = tr ++ [b] := by
   cases b with
   | nil => exact absurd rfl h
@@ -471,6 +476,7 @@ structure Good (c : Cfg α) (res : Res α) : Prop where
   bad : ∀ tr, res = .bad tr → ∃ g ∈ tr.flatten, c.fin (c.f g) = false
   noSpaces : res ≠ .noSpaces
 
+omit [LinearOrder α] in
 theorem tinv_nil (c : Cfg α) : TInv c [] := ⟨by simp, by simp, by simp⟩
 
 theorem run_good {c : Cfg α} (hs : SortSpec c.sortFn) : ∀ (n : Nat) (st : St α) (tr : List (List IGrid)),
@@ -547,13 +553,156 @@ theorem run_fuel {c : Cfg α} (hs : SortSpec c.sortFn) : ∀ (n : Nat) (st : St 
         | coarse r => simp [run, hp, hstep]
         | main => simp [run, hp, hstep]
 
+omit [LinearOrder α] in
 theorem inv_nil (c : Cfg α) : Inv c [] [] :=
   ⟨by simp, by simp, by simp, by simp, by simp, by simp⟩
 
+omit [LinearOrder α] in
 theorem proposal_single (c : Cfg α) (avg : IGrid) (havg : inGrid c.mn c.mx avg = true) : Proposal c [avg] := by
   refine ⟨by simpa using havg, by simp, ?_⟩
   simp only [List.length_singleton]
-  exact Nat.pos_pow (by decide)
+  exact Nat.pow_pos (by decide)
+
+
+/-- `tuner_t::optimize`: the initial evaluation of the average grid point, then the loops -/
+theorem optimize_good {c : Cfg α} (hs : SortSpec c.sortFn) (avg : IGrid) (havg : inGrid c.mn c.mx avg = true)
+    (fuel : Nat) : Good c (optimize c avg fuel) := by
+  unfold optimize
+  have hp := proposal_single c avg havg
+  have hlen : ([] : List (Step α)).length < c.maxEvals ∨
+      ([] : List (Step α)).length + [avg].length ≤ c.maxEvals + 3 ^ c.mn.length := by
+    right
+    have : 1 ≤ 3 ^ c.mn.length := Nat.pow_pos (by decide)
+    simp only [List.length_nil, List.length_singleton]
+    omega
+  split
+  · exact ⟨(by intro _ _ h; cases h; exact inv_nil c), tinv_nil c, (by intro _ h; cases h), (by intro h; cases h)⟩
+  · rename_i b hev
+    obtain ⟨hb, g, hg, hbad⟩ := evaluate_bad hev
+    have ht := tinv_snoc (inv_nil c) hp hlen
+    rw [← hb] at ht
+    refine ⟨(by intro _ _ h; cases h), by simpa using ht, ?_, (by intro h; cases h)⟩
+    intro tr h
+    cases h
+    exact ⟨g, by simpa using hg, hbad⟩
+  · rename_i steps b hev
+    obtain ⟨hinv, _⟩ := inv_evaluate hs (inv_nil c) hp hlen hev
+    exact run_good hs fuel ⟨steps, .coarse 2⟩ _ hinv (by show (2 : Int) ≠ 0; decide)
+
+theorem optimize_fuel {c : Cfg α} (hs : SortSpec c.sortFn) (avg : IGrid) (havg : inGrid c.mn c.mx avg = true)
+    (fuel : Nat) (hfuel : gridCard c.mn c.mx + 2 ≤ fuel) : optimize c avg fuel ≠ .fuel := by
+  unfold optimize
+  have hp := proposal_single c avg havg
+  have hlen : ([] : List (Step α)).length < c.maxEvals ∨
+      ([] : List (Step α)).length + [avg].length ≤ c.maxEvals + 3 ^ c.mn.length := by
+    right
+    have : 1 ≤ 3 ^ c.mn.length := Nat.pow_pos (by decide)
+    simp only [List.length_nil, List.length_singleton]
+    omega
+  split
+  · intro h; cases h
+  · intro h; cases h
+  · rename_i steps b hev
+    obtain ⟨hinv, hgrow⟩ := inv_evaluate hs (inv_nil c) hp hlen hev
+    refine run_fuel hs fuel ⟨steps, .coarse 2⟩ _ hinv (by show (2 : Int) ≠ 0; decide) ?_
+    have h1 := inv_length_le_gridCard hinv
+    simp only [List.length_nil] at hgrow
+    simp only [measure, phaseRank]
+    omega
+
+omit [LinearOrder α] in
+/-- the loops only ever append to the trace -/
+theorem run_trace_prefix (c : Cfg α) : ∀ (n : Nat) (st : St α) (tr : List (List IGrid)) (steps : List (Step α))
+    (tr' : List (List IGrid)), run c n st tr = .ok steps tr' → ∃ suffix, tr' = tr ++ suffix
+  | 0, _, _, _, _, h => by simp [run] at h
+  | n + 1, st, tr, steps, tr', h => by
+    cases hp : st.phase with
+    | done =>
+      simp only [run, hp, Res.ok.injEq] at h
+      exact ⟨[], by simp [h.2]⟩
+    | coarse r =>
+      simp only [run, hp] at h
+      split at h
+      · rename_i st' b _
+        obtain ⟨suffix, hsuf⟩ := run_trace_prefix c n st' _ steps tr' h
+        refine ⟨(if b.isEmpty then [] else [b]) ++ suffix, ?_⟩
+        rw [hsuf]
+        unfold addBatch
+        split <;> simp
+      · cases h
+      · cases h
+    | main =>
+      simp only [run, hp] at h
+      split at h
+      · rename_i st' b _
+        obtain ⟨suffix, hsuf⟩ := run_trace_prefix c n st' _ steps tr' h
+        refine ⟨(if b.isEmpty then [] else [b]) ++ suffix, ?_⟩
+        rw [hsuf]
+        unfold addBatch
+        split <;> simp
+      · cases h
+      · cases h
+
+/-- a successful `optimize` has evaluated the average grid point first -/
+theorem optimize_first_batch {c : Cfg α} (avg : IGrid) (fuel : Nat) {steps : List (Step α)} {tr : List (List IGrid)}
+    (h : optimize c avg fuel = .ok steps tr) : (steps = [] ∧ tr = []) ∨ ∃ suffix, tr = [avg] :: suffix := by
+  unfold optimize at h
+  split at h
+  · cases h
+    exact Or.inl ⟨rfl, rfl⟩
+  · cases h
+  · rename_i steps0 b hev
+    obtain ⟨hb, _, _, _⟩ := evaluate_ok hev
+    obtain ⟨suffix, hsuf⟩ := run_trace_prefix c fuel _ _ _ _ h
+    right
+    refine ⟨suffix, ?_⟩
+    rw [hsuf, hb]
+    simp [freshOf]
+
+/-! ### a sort that the kernel can evaluate (for the non-vacuity examples) -/
+
+def insertStep [LT α] [DecidableLT α] (x : Step α) : List (Step α) → List (Step α)
+  | [] => [x]
+  | y :: ys => if x.value < y.value then x :: y :: ys else y :: insertStep x ys
+
+def insertionSort [LT α] [DecidableLT α] : List (Step α) → List (Step α)
+  | [] => []
+  | x :: xs => insertStep x (insertionSort xs)
+
+theorem insertStep_perm (x : Step α) : ∀ l : List (Step α), (insertStep x l).Perm (x :: l)
+  | [] => List.Perm.refl _
+  | y :: ys => by
+    unfold insertStep
+    split
+    · exact List.Perm.refl _
+    · exact ((insertStep_perm x ys).cons y).trans (List.Perm.swap x y ys)
+
+theorem insertStep_sorted (x : Step α) : ∀ l : List (Step α), l.Pairwise (fun a b => ¬ b.value < a.value) →
+    (insertStep x l).Pairwise (fun a b => ¬ b.value < a.value)
+  | [], _ => by simp [insertStep]
+  | y :: ys, h => by
+    unfold insertStep
+    obtain ⟨hy, hys⟩ := List.pairwise_cons.mp h
+    split
+    · rename_i hlt
+      refine List.pairwise_cons.mpr ⟨?_, h⟩
+      intro z hz
+      rcases List.mem_cons.mp hz with rfl | hz'
+      · exact not_lt.mpr (le_of_lt hlt)
+      · exact not_lt.mpr (le_trans (le_of_lt hlt) (not_lt.mp (hy z hz')))
+    · rename_i hnlt
+      refine List.pairwise_cons.mpr ⟨?_, insertStep_sorted x ys hys⟩
+      intro z hz
+      rcases List.mem_cons.mp ((insertStep_perm x ys).subset hz) with rfl | hz'
+      · exact hnlt
+      · exact hy z hz'
+
+theorem insertionSort_sortSpec : SortSpec (insertionSort : List (Step α) → List (Step α)) := by
+  intro l
+  induction l with
+  | nil => exact ⟨List.Perm.refl _, List.Pairwise.nil⟩
+  | cons x xs ih =>
+    exact ⟨(insertStep_perm x _).trans (ih.1.cons x), insertStep_sorted x _ ih.2⟩
 
 end inv
 
